@@ -58,7 +58,6 @@ DEFAULT_OFF = {
     "try",
     "list_elem_assign",
     "forward_helper_call",
-    "float_minmaxabs",     # abs/min/max with float operands are typed int
     "macro_effectful_arg", # abs/min/max are macros and a < b < c repeats b: an effectful helper call there runs twice
     "for_bound_mutated",   # range(expr) is re-evaluated on every iteration in C
     "unannotated_param",   # parameter types are only inferred from call sites that are assignments
@@ -184,7 +183,8 @@ class Gen:
             lambda: f"({sub()} if {self.e_bool(depth - 1)} else {sub()})",
         ]
         if self.p.on("float_minmaxabs"):
-            opts += [lambda: f"abs({sub()})", lambda: f"max({sub()}, {sub()})"]
+            opts += [lambda: self.macro(lambda: f"abs({sub()})"), lambda: self.macro(lambda: f"max({sub()}, {sub()})"),
+                     lambda: self.macro(lambda: f"min({sub()}, {self.e_int(depth - 1)})")]
         if self.p.on("int_truediv"):
             opts.append(lambda: f"({self.e_int(depth - 1)} / {self.int_lit(1, 9)})")
         hs = [h for h in self.helpers if h[2] == "float" and h[0] != self.in_func]
